@@ -108,9 +108,16 @@ func cmdCodec(bw *bufio.Writer, n int, seed int64) {
 	sizes := []int{32, 32, 32, 32, 32, 32, 0, 1, 20, 31, 33, 64}
 	boundary := []*big.Int{big.NewInt(0), big.NewInt(1), new(big.Int).Lsh(big.NewInt(1), 64), new(big.Int).Lsh(big.NewInt(1), 255),
 		new(big.Int).Sub(new(big.Int).Lsh(big.NewInt(1), 256), big.NewInt(1))}
+	// field sizes that are individually wrong but add up to the right total
+	cancel := [][3]int{{31, 33, 32}, {33, 31, 32}, {32, 31, 33}, {30, 32, 34}, {0, 64, 32}, {64, 0, 32}, {0, 0, 96}, {16, 48, 32}, {32, 0, 64}}
+	cancelB := [][3]int{{31, 33, 32}, {33, 32, 31}, {0, 64, 32}, {32, 64, 0}, {48, 16, 32}}
 	for k := 0; k < n+50; k++ {
+		ss := [3]int{sizes[r.Intn(len(sizes))], sizes[r.Intn(len(sizes))], sizes[r.Intn(len(sizes))]}
+		if k%7 == 3 {
+			ss = cancel[r.Intn(len(cancel))]
+		}
 		m := types.Message{Version: r.Uint32(), SourceDomain: r.Uint32(), DestinationDomain: r.Uint32(), Nonce: r.Uint64(),
-			Sender: rnd(sizes[r.Intn(len(sizes))]), Recipient: rnd(sizes[r.Intn(len(sizes))]), DestinationCaller: rnd(sizes[r.Intn(len(sizes))]),
+			Sender: rnd(ss[0]), Recipient: rnd(ss[1]), DestinationCaller: rnd(ss[2]),
 			MessageBody: rnd(r.Intn(200))}
 		if k%3 == 0 {
 			m.Version, m.SourceDomain, m.Nonce = uint32(r.Intn(3)), 4, uint64(r.Intn(1000))
@@ -135,8 +142,12 @@ func cmdCodec(bw *bufio.Writer, n int, seed int64) {
 		if k < len(boundary)*2 {
 			amt = boundary[k%len(boundary)]
 		}
-		b := types.BurnMessage{Version: r.Uint32(), BurnToken: rnd(sizes[r.Intn(len(sizes))]), MintRecipient: rnd(sizes[r.Intn(len(sizes))]),
-			Amount: sdkmath.NewIntFromBigInt(amt), MessageSender: rnd(sizes[r.Intn(len(sizes))])}
+		sb := [3]int{sizes[r.Intn(len(sizes))], sizes[r.Intn(len(sizes))], sizes[r.Intn(len(sizes))]}
+		if k%7 == 5 {
+			sb = cancelB[r.Intn(len(cancelB))]
+		}
+		b := types.BurnMessage{Version: r.Uint32(), BurnToken: rnd(sb[0]), MintRecipient: rnd(sb[1]),
+			Amount: sdkmath.NewIntFromBigInt(amt), MessageSender: rnd(sb[2])}
 		inb := burnFields(&b)
 		obsb := M{"res": "err", "bytes": 0, "back": 0}
 		res = guard(func() {
